@@ -288,17 +288,21 @@ def run_model(ctx, runner, casefile, timeout=1800, jobs=None):
     for j in range(jobs):
         part = casefile + '.part%d' % j
         with open(part, 'w') as f: f.writelines(lines[j::jobs])
-        procs.append((j, subprocess.Popen(['bash', '-c', 'ulimit -s unlimited; exec "%s" "%s"' % (runner, part)],
-                                          stdout=subprocess.PIPE, stderr=subprocess.DEVNULL, text=True)))
+        fo = open(part + '.out', 'w')     # results go to files: a pipe would fill up and stall the worker
+        procs.append((j, fo, subprocess.Popen(['bash', '-c', 'ulimit -s unlimited; exec "%s" "%s"' % (runner, part)],
+                                              stdout=fo, stderr=subprocess.DEVNULL)))
     outs = {}; rc = 0
-    for j, p in procs:
+    deadline = time.time() + timeout
+    for j, fo, p in procs:
         try:
-            o, _ = p.communicate(timeout=timeout)
+            p.wait(timeout=max(1, deadline - time.time()))
         except subprocess.TimeoutExpired:
-            p.kill(); o = ''; rc = 124
+            p.kill(); rc = 124
+        fo.close()
         rc = rc or p.returncode
-        outs[j] = [sx_parse(l) for l in o.splitlines() if l.strip()]
-        os.remove(casefile + '.part%d' % j)
+        part = casefile + '.part%d' % j
+        outs[j] = [sx_parse(l) for l in open(part + '.out') if l.strip()]
+        os.remove(part); os.remove(part + '.out')
     res = [None] * len(lines)
     for j in range(jobs):
         idxs = list(range(j, len(lines), jobs))
